@@ -15,26 +15,36 @@ import (
 
 	"wzverif/internal/canon"
 	"wzverif/internal/kit"
-	"wzverif/internal/opc"
 )
 
 func TestMain(m *testing.M) {
 	document.SetGlobalLevel(document.LogLevelSilent)
-	kit.TestMain(m, 3000, 60000)
+	kit.TestMain(m, 1800, 30000)
 }
 
-// Op kinds: settings (full struct), size, custom, orient, margins, hfdist, gutter, grid, cleargrid, nil, reopen, para (unrelated edit)
+// Op kinds: settings (full struct), size, custom, orient, margins, hfdist, gutter, grid, cleargrid, nil, reopen, para (unrelated edit),
+// copy (read the settings struct of document I[0], optionally change one field, give it to SetPageSettings of document D),
+// read (GetPageSettings only; the caller then scribbles on the returned struct), other (an API call that is not a
+// page-setting call but works on the same section properties or on the body: headers, footers, title page, tables ...)
 type Op struct {
 	K string    `json:"k"`
 	S []string  `json:"s,omitempty"`
 	F []float64 `json:"f,omitempty"`
 	I []int     `json:"i,omitempty"`
+	D int       `json:"d,omitempty"` // the document the call is made on (0 = the first)
+}
+
+// Doc is one further document of the history; Start nil = document.New()
+type Doc struct {
+	Start *Start `json:"start,omitempty"`
 }
 
 type Case struct {
 	// Start: the section settings of the opened document of another producer; nil = document.New()
 	Start *Start `json:"start,omitempty"`
-	Ops   []Op   `json:"ops"`
+	// More: further documents (index 1, 2 ...) the calls of the history alternate between
+	More []Doc `json:"more,omitempty"`
+	Ops  []Op  `json:"ops"`
 }
 
 var sizes = []document.PageSize{document.PageSizeA4, document.PageSizeLetter, document.PageSizeLegal, document.PageSizeA3, document.PageSizeA5}
@@ -45,7 +55,7 @@ var grids = []string{"default", "lines", "snapToChars", "snapToLines"}
 const twip = 1.0 / 56.692913385827 // mm
 
 func lenGen(t *rapid.T, label string, allowNeg bool) float64 {
-	switch rapid.IntRange(0, 9).Draw(t, label+"k") {
+	switch rapid.IntRange(0, 10).Draw(t, label+"k") {
 	case 0:
 		return 0
 	case 1:
@@ -55,17 +65,27 @@ func lenGen(t *rapid.T, label string, allowNeg bool) float64 {
 		return 25.4
 	case 2:
 		return rapid.SampledFrom([]float64{25.4, 12.7, 31.75, 0.01, 100}).Draw(t, label+"std")
+	case 10: // narrow value classes: exactly between two twips, below half a twip, larger than any page
+		switch rapid.IntRange(0, 2).Draw(t, label+"nk") {
+		case 0:
+			return (float64(rapid.IntRange(0, 3000).Draw(t, label+"half")) + 0.5) * twip
+		case 1:
+			return rapid.SampledFrom([]float64{0.001, 0.0088, 0.0089, 1e-9}).Draw(t, label+"tiny")
+		}
+		return rapid.SampledFrom([]float64{300, 600, 1000}).Draw(t, label+"big")
 	}
 	return rapid.Float64Range(0, 120).Draw(t, label)
 }
 
+var nearOffsets = []float64{0, 0.3, -0.3, 0.9, -0.9, 0.99, 1.01, -1.01, 1.5, -2, 1, -1, 0.9999, -0.9999}
+
 // customDim draws a page dimension: across the valid range, at the bounds +- eps, outside, near predefined sizes.
 func customPair(t *rapid.T) (float64, float64, string) {
 	switch rapid.IntRange(0, 9).Draw(t, "ck") {
-	case 0: // near a predefined size, same or rotated aspect, within/outside the 1 mm tolerance
+	case 0: // near a predefined size, same or rotated aspect, within/outside/exactly at the 1 mm tolerance
 		p := dims[rapid.SampledFrom(sizes).Draw(t, "near")]
-		dw := rapid.SampledFrom([]float64{0, 0.3, -0.3, 0.9, -0.9, 0.99, 1.01, -1.01, 1.5, -2}).Draw(t, "dw")
-		dh := rapid.SampledFrom([]float64{0, 0.3, -0.3, 0.9, -0.9, 0.99, 1.01, -1.01, 1.5, -2}).Draw(t, "dh")
+		dw := rapid.SampledFrom(nearOffsets).Draw(t, "dw")
+		dh := rapid.SampledFrom(nearOffsets).Draw(t, "dh")
 		if rapid.Bool().Draw(t, "rot") {
 			return p[1] + dw, p[0] + dh, "near-standard-rotated"
 		}
@@ -81,18 +101,54 @@ func customPair(t *rapid.T) (float64, float64, string) {
 	return rapid.Float64Range(12.7, 558.8).Draw(t, "cw"), rapid.Float64Range(12.7, 558.8).Draw(t, "ch"), "custom"
 }
 
+var orients = []string{"portrait", "landscape", "portrait", "landscape", "portrait", "landscape", "portrait", "landscape", "", "Landscape", "diagonal",
+	"LANDSCAPE", " landscape", "landscape ", "portrait\n", "Portrait", "\tportrait"}
+
+var opKinds = []string{"settings", "settings", "size", "size", "custom", "custom", "custom", "orient", "orient", "orient", "margins", "margins", "hfdist", "gutter", "grid", "cleargrid", "nil", "reopen", "reopen", "para",
+	"copy", "read", "other", "other"}
+
+func gridInts(t *rapid.T) []int {
+	lp := rapid.IntRange(0, 1000).Draw(t, "lp")
+	if chance(t, "lpbig", 1, 10) {
+		lp = rapid.SampledFrom([]int{31680, 1584, 20000}).Draw(t, "lpv")
+	}
+	cs := rapid.IntRange(0, 400).Draw(t, "cs")
+	switch rapid.IntRange(0, 19).Draw(t, "csk") {
+	case 0, 1, 2, 3: // compressed character pitch (usual in CJK documents)
+		cs = rapid.SampledFrom([]int{-1, -2714, -1844, -4096, -400}).Draw(t, "csneg")
+	case 4:
+		cs = 40960
+	}
+	return []int{lp, cs}
+}
+
 func genCase(t *rapid.T) Case {
 	var c Case
 	if chance(t, "start", 4, 10) {
 		c.Start = genStart(t)
 	}
-	n := rapid.IntRange(1, 25).Draw(t, "n")
-	for i := 0; i < n; i++ {
-		k := rapid.SampledFrom([]string{"settings", "settings", "size", "size", "custom", "custom", "custom", "orient", "orient", "orient", "margins", "margins", "hfdist", "gutter", "grid", "cleargrid", "nil", "reopen", "reopen", "para"}).Draw(t, "k")
-		o := Op{K: k}
-		orient := func() string {
-			return rapid.SampledFrom([]string{"portrait", "landscape", "portrait", "landscape", "portrait", "landscape", "", "Landscape", "diagonal"}).Draw(t, "orient")
+	nd := 1
+	if chance(t, "multi", 1, 4) { // two or three documents used alternately
+		nd = rapid.SampledFrom([]int{2, 2, 2, 3}).Draw(t, "ndocs")
+		for j := 1; j < nd; j++ {
+			var d Doc
+			if chance(t, "mstart", 3, 10) {
+				d.Start = genStart(t)
+			}
+			c.More = append(c.More, d)
 		}
+	}
+	n := rapid.IntRange(1, 25).Draw(t, "n")
+	if chance(t, "longhist", 1, 25) {
+		n = rapid.IntRange(26, 70).Draw(t, "nlong")
+	}
+	for i := 0; i < n; i++ {
+		k := rapid.SampledFrom(opKinds).Draw(t, "k")
+		o := Op{K: k}
+		if nd > 1 {
+			o.D = rapid.IntRange(0, nd-1).Draw(t, "d")
+		}
+		orient := func() string { return rapid.SampledFrom(orients).Draw(t, "orient") }
 		switch k {
 		case "settings":
 			// S: size name, orientation, grid type; F: customW, customH, 4 margins, header, footer, gutter; I: linePitch, charSpace
@@ -100,6 +156,9 @@ func genCase(t *rapid.T) Case {
 			w, h := 0.0, 0.0
 			if rapid.Bool().Draw(t, "predef") {
 				size = string(rapid.SampledFrom(sizes).Draw(t, "size"))
+				if chance(t, "stray", 1, 3) { // custom dimensions (valid or not) next to a predefined size: documented as unused
+					w, h, _ = customPair(t)
+				}
 			} else {
 				w, h, _ = customPair(t)
 			}
@@ -108,24 +167,53 @@ func genCase(t *rapid.T) Case {
 			loose := rapid.IntRange(0, 4).Draw(t, "loose") == 0
 			o.S = []string{size, orient(), rapid.SampledFrom(grids).Draw(t, "grid")}
 			o.F = []float64{w, h, lenGen(t, "mt", loose), lenGen(t, "mr", loose), lenGen(t, "mb", loose), lenGen(t, "ml", loose), lenGen(t, "hd", loose), lenGen(t, "fd", loose), lenGen(t, "g", loose)}
-			o.I = []int{rapid.IntRange(0, 1000).Draw(t, "lp"), rapid.IntRange(0, 400).Draw(t, "cs")}
+			o.I = gridInts(t)
+			if chance(t, "alldefaults", 1, 12) { // the documented defaults, named explicitly
+				o.S = []string{"A4", "portrait", "lines"}
+				o.F = []float64{0, 0, 25.4, 25.4, 25.4, 25.4, 12.7, 12.7, 0}
+				o.I = []int{312, 0}
+			}
 		case "size":
 			o.S = []string{string(rapid.SampledFrom(sizes).Draw(t, "size"))}
 		case "custom":
 			w, h, cls := customPair(t)
 			o.F = []float64{w, h}
 			o.S = []string{cls}
+			if chance(t, "special", 1, 60) { // not a number / infinite: outside the documented range like any other invalid size
+				o.S = append(o.S, rapid.SampledFrom(specials).Draw(t, "specialv"))
+			}
 		case "orient":
 			o.S = []string{orient()}
 		case "margins":
 			o.F = []float64{lenGen(t, "mt", true), lenGen(t, "mr", true), lenGen(t, "mb", true), lenGen(t, "ml", true)}
+			if chance(t, "mdefaults", 1, 8) {
+				o.F = []float64{25.4, 25.4, 25.4, 25.4}
+			}
 		case "hfdist":
 			o.F = []float64{lenGen(t, "hd", true), lenGen(t, "fd", true)}
+			if chance(t, "hdefaults", 1, 8) {
+				o.F = []float64{12.7, 12.7}
+			}
 		case "gutter":
 			o.F = []float64{lenGen(t, "g", true)}
 		case "grid":
 			o.S = []string{rapid.SampledFrom(append(append([]string{}, grids...), "")).Draw(t, "grid")}
-			o.I = []int{rapid.IntRange(0, 1000).Draw(t, "lp"), rapid.IntRange(0, 400).Draw(t, "cs")}
+			o.I = gridInts(t)
+			if chance(t, "gdefaults", 1, 8) {
+				o.S, o.I = []string{"lines"}, []int{312, 0}
+			}
+		case "reopen":
+			if chance(t, "viafile", 1, 4) {
+				o.S = []string{"file"}
+			}
+		case "copy":
+			o.I = []int{rapid.IntRange(0, nd-1).Draw(t, "src")}
+			o.S = []string{rapid.SampledFrom([]string{"", "", "top", "flip"}).Draw(t, "tweak")}
+			if o.S[0] == "top" {
+				o.F = []float64{lenGen(t, "ct", false)}
+			}
+		case "other":
+			o.S = []string{rapid.SampledFrom(otherKinds).Draw(t, "other")}
 		}
 		c.Ops = append(c.Ops, o)
 	}
@@ -149,6 +237,11 @@ type model struct {
 	Silent       bool
 	SeenSize     document.PageSize
 	SeenW, SeenH float64
+	// MarNamed: a call (or the opened file) named the margins, so the saved part has to carry w:pgMar.
+	// GridNamed: type / line pitch / character space of the grid were named by a call (or carried by the opened file) and
+	// no ClearDocGrid came since, so the saved part has to carry them in w:docGrid (observe_at of the property).
+	MarNamed  bool
+	GridNamed [3]bool
 }
 
 func defaults() model {
@@ -157,11 +250,12 @@ func defaults() model {
 
 func near(a, b, tol float64) bool { return math.Abs(a-b) <= tol }
 
-// nearStd returns the predefined size within 1 mm (same aspect) of (w,h), if any.
+// nearStd returns the predefined size within 1 mm (same aspect) of (w,h), if any. The stored size is rounded to a
+// twip, so a size exactly 1 mm (up to unit rounding) off may be recognised or not: inside nearStd both reports are accepted.
 func nearStd(w, h float64) (document.PageSize, bool) {
 	for _, s := range sizes {
 		d := dims[s]
-		if math.Abs(w-d[0]) < 1 && math.Abs(h-d[1]) < 1 {
+		if math.Abs(w-d[0]) < 1+1.001*twip && math.Abs(h-d[1]) < 1+1.001*twip {
 			return s, true
 		}
 	}
@@ -228,20 +322,21 @@ func (m model) check(res *kit.Result, got *document.PageSettings, where string) 
 	}
 }
 
-// checkXML judges the physical page in the saved main part (S3).
+// checkXML judges the physical page, the margins and the grid in the saved main part (S3), read with archive/zip and
+// the harness's own XML reader - nothing of the library.
 func (m model) checkXML(res *kit.Result, doc *document.Document, where string) {
 	if !m.Touched {
 		return
 	}
-	b, err := doc.ToBytes()
-	if err != nil {
+	m.checkPart(res, mainPart(doc), where)
+}
+
+// checkPart judges the main part of a saved package.
+func (m model) checkPart(res *kit.Result, part []byte, where string) {
+	if !m.Touched || part == nil {
 		return
 	}
-	pkg, err := opc.Read(b)
-	if err != nil {
-		return
-	}
-	root, err := canon.Parse(pkg.Parts["word/document.xml"])
+	root, err := canon.Parse(part)
 	if err != nil {
 		return
 	}
@@ -278,6 +373,9 @@ func (m model) checkXML(res *kit.Result, doc *document.Document, where string) {
 		res.Fail("C12.S3", "%s: w:pgSz/@w:orient is %q, model landscape=%v", where, o, m.Landscape)
 	}
 	mar := sects[0].Kid(canon.W, "pgMar")
+	if mar == nil && m.MarNamed {
+		res.Fail("C12.S3", "[attr=MarginTop] %s: the saved w:sectPr has no w:pgMar although the margins were named", where)
+	}
 	if mar != nil {
 		for _, p := range []struct {
 			a string
@@ -286,6 +384,33 @@ func (m model) checkXML(res *kit.Result, doc *document.Document, where string) {
 			v, _ := strconv.ParseFloat(mar.A(canon.W, p.a), 64)
 			if math.Abs(v-p.w/twip) > 1.001 {
 				res.Fail("C12.S3", "[attr=%s] %s: w:pgMar/@w:%s is %v twips, model %.3f mm = %.1f twips", marField[p.a], where, p.a, v, p.w, p.w/twip)
+			}
+		}
+	}
+	// the grid as another consumer reads it: the attributes a call named must be in the part with the named values
+	// (an absent w:linePitch / w:charSpace is 0 to a consumer); after ClearDocGrid nothing of the grid is demanded
+	if m.GridNamed[0] || m.GridNamed[1] || m.GridNamed[2] {
+		g := sects[0].Kid(canon.W, "docGrid")
+		if g == nil {
+			res.Fail("C12.S3", "[attr=DocGridType] %s: the saved w:sectPr has no w:docGrid although the grid was named (type %q, line pitch %d, character space %d)", where, m.Grid, m.LP, m.CS)
+			return
+		}
+		if m.GridNamed[0] {
+			if v := g.A(canon.W, "type"); v != m.Grid {
+				res.Fail("C12.S3", "[attr=DocGridType] %s: w:docGrid/@w:type is %q, named %q", where, v, m.Grid)
+			}
+		}
+		for i, p := range []struct {
+			a, f string
+			w    int
+		}{{"linePitch", "DocGridLinePitch", m.LP}, {"charSpace", "DocGridCharSpace", m.CS}} {
+			if !m.GridNamed[i+1] {
+				continue
+			}
+			raw, has := g.Attr(canon.W, p.a)
+			v, err := strconv.Atoi(raw)
+			if (has && (err != nil || v != p.w)) || (!has && p.w != 0) {
+				res.Fail("C12.S3", "[attr=%s] %s: w:docGrid/@w:%s is %q (present=%v), named %d", p.f, where, p.a, raw, has, p.w)
 			}
 		}
 	}
@@ -313,16 +438,40 @@ func sectSnapshot(doc *document.Document) interface{} {
 	return nil
 }
 
+// docState is one document of the history with its reference model.
+type docState struct {
+	doc      *document.Document
+	m        model
+	xmlFresh bool // the saved part was judged in the document's current state
+}
+
 func run(c Case) *kit.Result {
 	res := &kit.Result{}
-	doc := document.New()
-	m := defaults()
+	starts := []*Start{c.Start}
+	for _, d := range c.More {
+		starts = append(starts, d.Start)
+	}
+	for _, op := range c.Ops {
+		if op.D < 0 || op.D >= len(starts) || (op.K == "copy" && (len(op.I) < 1 || op.I[0] < 0 || op.I[0] >= len(starts))) {
+			res.Label("start:invalid-description")
+			res.Shape = "invalid-description"
+			return res
+		}
+	}
+	for _, st := range starts {
+		if st != nil && st.valid() != "" {
+			res.Label("start:invalid-description")
+			res.Shape = "invalid-description"
+			return res
+		}
+	}
+	docs := make([]*docState, len(starts))
 	okOps, rejected, reopens := 0, 0, 0
 	var shape []string
 	// settle decides after a judged step whether the history ends here (true). Failures that belong to an open
 	// finding confined to single attributes do not end it: the model takes the library's value of those attributes
 	// and the rest of the history is judged as usual.
-	settle := func(n0 int, got *document.PageSettings) bool {
+	settle := func(ds *docState, n0 int, got *document.PageSettings) bool {
 		if len(res.Failures) == n0 {
 			return false
 		}
@@ -331,6 +480,7 @@ func run(c Case) *kit.Result {
 				return true
 			}
 		}
+		m := &ds.m
 		for _, f := range res.Failures[n0:] {
 			switch failAttr(f) {
 			case "MarginTop":
@@ -352,15 +502,15 @@ func run(c Case) *kit.Result {
 		res.Count("resynced-after-open-finding", 1)
 		return false
 	}
-	if c.Start != nil {
-		if msg := c.Start.valid(); msg != "" {
-			res.Label("start:invalid-description")
-			res.Shape = "invalid-description"
-			return res
+	for di, st := range starts {
+		ds := &docState{doc: document.New(), m: defaults()}
+		docs[di] = ds
+		if st == nil {
+			continue
 		}
 		var err error
-		if p, st := kit.Try(func() { doc, err = c.Start.open() }); p != nil {
-			res.Fail("C12.S0", "opening the document of another producer panicked: %v [%s]", p, st)
+		if p, stk := kit.Try(func() { ds.doc, err = st.open() }); p != nil {
+			res.Fail("C12.S0", "opening the document of another producer panicked: %v [%s]", p, stk)
 			return res
 		}
 		if err != nil {
@@ -368,36 +518,39 @@ func run(c Case) *kit.Result {
 			return res
 		}
 		var got *document.PageSettings
-		if p, st := kit.Try(func() { got = doc.GetPageSettings() }); p != nil {
-			res.Fail("C12.S0", "GetPageSettings on the opened document panicked: %v [%s]", p, st)
+		if p, stk := kit.Try(func() { got = ds.doc.GetPageSettings() }); p != nil {
+			res.Fail("C12.S0", "GetPageSettings on the opened document panicked: %v [%s]", p, stk)
 			return res
 		}
 		var ambiguous bool
-		m, ambiguous = c.Start.model()
+		ds.m, ambiguous = st.model()
 		res.Label("start:foreign")
 		cls := "plain"
 		switch {
-		case c.Start.wideNoOrient():
+		case st.wideNoOrient():
 			cls = "wide-no-orient"
-		case c.Start.contradicts():
+		case st.contradicts():
 			cls = "orient-contradicts"
-		case find(c.Start.Sect, "pgSz") == nil:
+		case find(st.Sect, "pgSz") == nil:
 			cls = "no-pgSz"
 		}
 		res.Label("start:" + cls)
-		if len(c.Start.marAbsent()) > 0 {
+		if len(st.marAbsent()) > 0 {
 			res.Label("start:pgMar-partial")
 		}
-		if !c.Start.NoSect && find(c.Start.Sect, "pgMar") == nil {
+		if !st.NoSect && find(st.Sect, "pgMar") == nil {
 			res.Label("start:no-pgMar")
 		}
-		if g := find(c.Start.Sect, "docGrid"); g == nil {
+		if g := find(st.Sect, "docGrid"); g == nil {
 			res.Label("start:no-docGrid")
 		} else if _, ok := g.attr("type"); !ok {
 			res.Label("start:docGrid-without-type")
 		}
-		if c.Start.HasPara {
+		if st.HasPara {
 			res.Label("start:two-sections")
+		}
+		for _, l := range st.widenedLabels() {
+			res.Label(l)
 		}
 		if ambiguous {
 			// the statement does not say what the orientation of this page is: adopt what the library reports
@@ -405,19 +558,60 @@ func run(c Case) *kit.Result {
 				res.Fail("C12.S2", "after open: Orientation reads back %q, neither portrait nor landscape", got.Orientation)
 				return res
 			}
-			m = m.adopt(got.Orientation == document.OrientationLandscape)
-			m.Silent, m.SeenSize, m.SeenW, m.SeenH = true, got.Size, got.CustomWidth, got.CustomHeight
+			ds.m = ds.m.adopt(got.Orientation == document.OrientationLandscape)
+			ds.m.Silent, ds.m.SeenSize, ds.m.SeenW, ds.m.SeenH = true, got.Size, got.CustomWidth, got.CustomHeight
 		}
-		shape = append(shape, "open:"+cls)
+		shape = append(shape, fmt.Sprintf("open%d:%s", di, cls))
 		// the empty history: every attribute the file carries reads back as written, the others as the defaults
-		m.check(res, got, "after open")
-		if settle(0, got) {
+		where := "after open"
+		if di > 0 {
+			where = fmt.Sprintf("document %d after open", di)
+		}
+		n0 := len(res.Failures)
+		ds.m.check(res, got, where)
+		if settle(ds, n0, got) {
 			return res
 		}
 	}
+	if len(docs) > 1 {
+		res.Label("docs:several")
+	}
+	// others: a call on one document names nothing of another document (S5): their settings read back as before
+	others := func(d int, where string) bool {
+		for e, es := range docs {
+			if e == d {
+				continue
+			}
+			var got *document.PageSettings
+			if p, st := kit.Try(func() { got = es.doc.GetPageSettings() }); p != nil {
+				res.Fail("C12.S0", "GetPageSettings panicked: %v [%s]", p, st)
+				return true
+			}
+			res.Eval("C12.S5")
+			n0 := len(res.Failures)
+			es.m.check(res, got, fmt.Sprintf("document %d %s on document %d", e, where, d))
+			for j := n0; j < len(res.Failures); j++ {
+				res.Failures[j].Clause = "C12.S5"
+			}
+			if settle(es, n0, got) {
+				return true
+			}
+		}
+		return false
+	}
 	sawCustomLandscape := false
+	short := len(c.Ops) <= 6
 	for i, op := range c.Ops {
+		ds := docs[op.D]
+		doc := ds.doc
+		m := ds.m
+		last := i == len(c.Ops)-1
 		where := fmt.Sprintf("after op %d %s", i, op.K)
+		tag := op.K
+		if op.D > 0 {
+			where = fmt.Sprintf("document %d after op %d %s", op.D, i, op.K)
+			tag = fmt.Sprintf("%d.%s", op.D, op.K)
+		}
 		var before *document.PageSettings
 		if p, st := kit.Try(func() { before = doc.GetPageSettings() }); p != nil {
 			res.Fail("C12.S0", "GetPageSettings panicked: %v [%s]", p, st)
@@ -427,8 +621,10 @@ func run(c Case) *kit.Result {
 		nm := m
 		valid := true
 		either := false // undocumented either way: rejection (changing nothing) and acceptance (reading back as set) are both fine
+		setting := true // a page-setting call (counts for Touched / non-triviality)
 		var err error
 		var call func()
+		var held *document.PageSettings // the struct given to SetPageSettings: the caller goes on using it afterwards
 		validOrient := func(s string) bool { return s == "portrait" || s == "landscape" }
 		validCustom := func(w, h float64) bool { return w >= 12.7 && w <= 558.8 && h >= 12.7 && h <= 558.8 }
 		switch op.K {
@@ -436,6 +632,7 @@ func run(c Case) *kit.Result {
 			ps := &document.PageSettings{Size: document.PageSize(op.S[0]), CustomWidth: op.F[0], CustomHeight: op.F[1], Orientation: document.PageOrientation(op.S[1]),
 				MarginTop: op.F[2], MarginRight: op.F[3], MarginBottom: op.F[4], MarginLeft: op.F[5], HeaderDistance: op.F[6], FooterDistance: op.F[7], GutterWidth: op.F[8],
 				DocGridType: document.DocGridType(op.S[2]), DocGridLinePitch: op.I[0], DocGridCharSpace: op.I[1]}
+			held = ps
 			call = func() { err = doc.SetPageSettings(ps) }
 			valid = validOrient(op.S[1]) && (op.S[0] != "Custom" || validCustom(op.F[0], op.F[1]))
 			for _, v := range op.F[2:] {
@@ -445,6 +642,9 @@ func run(c Case) *kit.Result {
 			}
 			if op.S[2] == "" {
 				either = valid
+			}
+			if op.S[0] != "Custom" && (op.F[0] != 0 || op.F[1] != 0) {
+				res.Label("settings:predefined+stray-custom-dims")
 			}
 			nm.Silent = false
 			if op.S[0] == "Custom" {
@@ -457,15 +657,82 @@ func run(c Case) *kit.Result {
 			nm.M = [4]float64{op.F[2], op.F[3], op.F[4], op.F[5]}
 			nm.Hd, nm.Fd, nm.Gut = op.F[6], op.F[7], op.F[8]
 			nm.Grid, nm.LP, nm.CS = op.S[2], op.I[0], op.I[1]
+			nm.MarNamed = true
+			if op.S[2] != "" {
+				nm.GridNamed = [3]bool{true, true, true}
+			}
+		case "copy":
+			// what user code does with two documents: read the settings of one, change a field, give the struct to the other.
+			// The call names every attribute with the value the struct carries.
+			src := docs[op.I[0]]
+			var ps *document.PageSettings
+			if p, st := kit.Try(func() { ps = src.doc.GetPageSettings() }); p != nil || ps == nil {
+				res.Fail("C12.S0", "GetPageSettings panicked or returned nil: %v [%s]", p, st)
+				return res
+			}
+			tweak := ""
+			if len(op.S) > 0 {
+				tweak = op.S[0]
+			}
+			switch tweak {
+			case "top":
+				ps.MarginTop = op.F[0]
+			case "flip":
+				if ps.Orientation == document.OrientationLandscape {
+					ps.Orientation = document.OrientationPortrait
+				} else {
+					ps.Orientation = document.OrientationLandscape
+				}
+			}
+			if _, known := dims[ps.Size]; !known && ps.Size != document.PageSizeCustom {
+				// the source reports a size name the documentation does not list: judged on the source, not copied
+				res.Label("copy:skipped")
+				continue
+			}
+			given := *ps
+			held = ps
+			call = func() { err = doc.SetPageSettings(ps) }
+			half := 0.5 * twip // the source's size went through twips: a bound reads back up to unit rounding
+			valid = validOrient(string(given.Orientation)) && (given.Size != document.PageSizeCustom || validCustom(given.CustomWidth, given.CustomHeight) ||
+				(validCustom(clampBound(given.CustomWidth, half), clampBound(given.CustomHeight, half))))
+			for _, v := range []float64{given.MarginTop, given.MarginRight, given.MarginBottom, given.MarginLeft, given.HeaderDistance, given.FooterDistance, given.GutterWidth} {
+				if v < 0 {
+					either = valid
+				}
+			}
+			nm.Silent = false
+			if given.Size == document.PageSizeCustom {
+				nm.Predef, nm.W, nm.H = "", given.CustomWidth, given.CustomHeight
+			} else {
+				nm.Predef = given.Size
+				nm.W, nm.H = dims[nm.Predef][0], dims[nm.Predef][1]
+			}
+			nm.Landscape = given.Orientation == document.OrientationLandscape
+			nm.M = [4]float64{given.MarginTop, given.MarginRight, given.MarginBottom, given.MarginLeft}
+			nm.Hd, nm.Fd, nm.Gut = given.HeaderDistance, given.FooterDistance, given.GutterWidth
+			nm.Grid, nm.LP, nm.CS = string(given.DocGridType), given.DocGridLinePitch, given.DocGridCharSpace
+			nm.MarNamed = true
+			if given.DocGridType != "" {
+				nm.GridNamed = [3]bool{true, true, true}
+			}
+			res.Label("copy")
+			if op.I[0] != op.D {
+				res.Label("copy:between-documents")
+			}
 		case "size":
 			call = func() { err = doc.SetPageSize(document.PageSize(op.S[0])) }
 			nm.Predef = document.PageSize(op.S[0])
 			nm.W, nm.H = dims[nm.Predef][0], dims[nm.Predef][1]
 			nm.Silent = false
 		case "custom":
-			call = func() { err = doc.SetCustomPageSize(op.F[0], op.F[1]) }
-			valid = validCustom(op.F[0], op.F[1])
-			nm.Predef, nm.W, nm.H = "", op.F[0], op.F[1]
+			w, h := op.F[0], op.F[1]
+			if len(op.S) > 1 {
+				w, h = special(op.S[1], w, h)
+				res.Label("custom:not-a-number-or-infinite")
+			}
+			call = func() { err = doc.SetCustomPageSize(w, h) }
+			valid = validCustom(w, h)
+			nm.Predef, nm.W, nm.H = "", w, h
 			nm.Silent = false
 			res.Label("custom:" + op.S[0])
 		case "orient":
@@ -476,41 +743,85 @@ func run(c Case) *kit.Result {
 			call = func() { err = doc.SetPageMargins(op.F[0], op.F[1], op.F[2], op.F[3]) }
 			valid = op.F[0] >= 0 && op.F[1] >= 0 && op.F[2] >= 0 && op.F[3] >= 0
 			nm.M = [4]float64{op.F[0], op.F[1], op.F[2], op.F[3]}
+			nm.MarNamed = true
+			if nm.M == defaults().M {
+				res.Label("named-with-default-values")
+			}
 		case "hfdist":
 			call = func() { err = doc.SetHeaderFooterDistance(op.F[0], op.F[1]) }
 			valid = op.F[0] >= 0 && op.F[1] >= 0
 			nm.Hd, nm.Fd = op.F[0], op.F[1]
+			nm.MarNamed = true
 		case "gutter":
 			call = func() { err = doc.SetGutterWidth(op.F[0]) }
 			valid = op.F[0] >= 0
 			nm.Gut = op.F[0]
+			nm.MarNamed = true
 		case "grid":
 			call = func() { err = doc.SetDocGrid(document.DocGridType(op.S[0]), op.I[0], op.I[1]) }
 			valid = op.S[0] != ""
 			nm.Grid, nm.LP, nm.CS = op.S[0], op.I[0], op.I[1]
+			nm.GridNamed = [3]bool{true, true, true}
+			if op.I[1] < 0 {
+				res.Label("grid:negative-charspace")
+			}
+			if d := defaults(); nm.Grid == d.Grid && nm.LP == d.LP && nm.CS == d.CS {
+				res.Label("named-with-default-values")
+			}
 		case "cleargrid":
 			call = func() { err = doc.ClearDocGrid() }
 			d := defaults()
 			nm.Grid, nm.LP, nm.CS = d.Grid, d.LP, d.CS
+			nm.GridNamed = [3]bool{}
 		case "nil":
 			call = func() { err = doc.SetPageSettings(nil) }
 			valid = false
 		case "para":
+			setting = false
 			call = func() { doc.AddParagraph("text") }
+		case "read":
+			// a read names nothing; what the caller does with the returned struct afterwards is the caller's business
+			setting = false
+			call = func() {
+				a := doc.GetPageSettings()
+				scribble(a)
+				b := doc.GetPageSettings()
+				scribble(b)
+			}
+		case "other":
+			// not a page-setting call: it names nothing, whatever it does to the section properties or the body
+			setting = false
+			kind := op.S[0]
+			f := otherCall(doc, kind)
+			if f == nil {
+				res.Label("start:invalid-description")
+				res.Shape = "invalid-description"
+				return res
+			}
+			call = func() { _ = f() }
+			res.Label("other")
+			res.Label("other:" + kind)
 		case "reopen":
-			b, e := doc.ToBytes()
-			if e != nil {
-				res.Fail("C12.S4", "ToBytes failed: %v", e)
+			viaFile := len(op.S) > 0 && op.S[0] == "file"
+			var nd *document.Document
+			var e error
+			var saved []byte
+			if viaFile {
+				nd, saved, e = reopenFile(doc)
+				res.Label("reopen:file")
+			} else {
+				saved, e = doc.ToBytes()
+				if e == nil {
+					nd, e = document.OpenFromMemory(io.NopCloser(bytes.NewReader(saved)))
+				}
+			}
+			if e != nil || nd == nil {
+				res.Fail("C12.S4", "%s: saving and reopening failed: %v", where, e)
 				return res
 			}
-			nd, e := document.OpenFromMemory(io.NopCloser(bytes.NewReader(b)))
-			if e != nil {
-				res.Fail("C12.S4", "reopen failed: %v", e)
-				return res
-			}
-			doc = nd
+			ds.doc, doc = nd, nd
 			reopens++
-			shape = append(shape, "reopen")
+			shape = append(shape, tag)
 			res.Eval("C12.S4")
 			var got *document.PageSettings
 			if p, st := kit.Try(func() { got = doc.GetPageSettings() }); p != nil {
@@ -519,18 +830,36 @@ func run(c Case) *kit.Result {
 			}
 			n0 := len(res.Failures)
 			m.check(res, got, where)
-			m.checkXML(res, doc, where)
+			// the saved package itself is judged here; what the reopened document writes in turn is judged at the next
+			// judged call or at the end of the history
+			m.checkPart(res, mainPartOf(saved), where+" (the saved package)")
+			ds.xmlFresh = false
 			for j := n0; j < len(res.Failures); j++ {
 				res.Failures[j].Clause = "C12.S4"
 			}
-			if settle(n0, got) {
+			if settle(ds, n0, got) {
+				return res
+			}
+			if others(op.D, fmt.Sprintf("after op %d %s", i, op.K)) {
 				return res
 			}
 			continue
 		}
+		// the saved main part before a call that is (or may be) rejected: a rejected call leaves it byte-identical
+		var partBefore []byte
+		if (!valid || either) && (last || i%5 == 0 || (short && i%2 == 0)) {
+			partBefore = mainPart(doc)
+		}
 		if p, st := kit.Try(call); p != nil {
+			if op.K == "other" { // not a page-setting call: its own failures belong to other properties; the history ends unjudged
+				res.Label("other:panicked")
+				return res
+			}
 			res.Fail("C12.S0", "op %d %s panicked: %v [%s]", i, op.K, p, st)
 			return res
+		}
+		if held != nil {
+			scribble(held) // the caller reuses its struct; the document must not be looking at it any more
 		}
 		if either {
 			res.Label("settings:undocumented-values")
@@ -541,14 +870,23 @@ func run(c Case) *kit.Result {
 		if !valid || (either && err != nil) {
 			rejected++
 			res.Eval("C12.S1")
-			shape = append(shape, op.K+":rej")
+			shape = append(shape, tag+":rej")
 			if err == nil {
-				res.Fail("C12.S1", "op %d %s %v %v is documented as invalid but was accepted", i, op.K, op.S, op.F)
+				res.Fail("C12.S1", "%sop %d %s %v %v is documented as invalid but was accepted", specialTag(op), i, op.K, op.S, op.F)
 				return res
 			}
 			after := doc.GetPageSettings()
 			if !reflect.DeepEqual(before, after) || !reflect.DeepEqual(snapBefore, sectSnapshot(doc)) {
 				res.Fail("C12.S1", "op %d %s was rejected (%v) but changed the settings: %+v -> %+v", i, op.K, err, before, after)
+				return res
+			}
+			if partBefore != nil {
+				if partAfter := mainPart(doc); partAfter != nil && !bytes.Equal(partBefore, partAfter) {
+					res.Fail("C12.S1", "op %d %s was rejected (%v) but the saved main part differs from the one saved before the call: %s", i, op.K, err, firstDiff(partBefore, partAfter))
+					return res
+				}
+			}
+			if others(op.D, fmt.Sprintf("after rejected op %d %s", i, op.K)) {
 				return res
 			}
 			continue
@@ -557,7 +895,7 @@ func run(c Case) *kit.Result {
 			res.Fail("C12.S2", "op %d %s %v %v %v is a valid request but was rejected: %v", i, op.K, op.S, op.F, op.I, err)
 			return res
 		}
-		if op.K != "para" {
+		if setting {
 			okOps++
 			nm.Touched = true
 			if op.K == "cleargrid" {
@@ -565,10 +903,12 @@ func run(c Case) *kit.Result {
 			}
 		}
 		m = nm
+		ds.m = nm
+		ds.xmlFresh = false
 		if m.Predef == "" && m.Landscape {
 			sawCustomLandscape = true
 		}
-		shape = append(shape, op.K)
+		shape = append(shape, tag)
 		var got *document.PageSettings
 		if p, st := kit.Try(func() { got = doc.GetPageSettings() }); p != nil {
 			res.Fail("C12.S0", "GetPageSettings panicked: %v [%s]", p, st)
@@ -576,9 +916,25 @@ func run(c Case) *kit.Result {
 		}
 		n0 := len(res.Failures)
 		m.check(res, got, where)
-		m.checkXML(res, doc, where)
-		if settle(n0, got) {
+		if short || last || i%5 == 4 {
+			m.checkXML(res, doc, where)
+			ds.xmlFresh = true
+		}
+		if settle(ds, n0, got) {
 			return res
+		}
+		if others(op.D, fmt.Sprintf("after op %d %s", i, op.K)) {
+			return res
+		}
+	}
+	// the saved part of every document in its final state
+	for di, ds := range docs {
+		if !ds.xmlFresh {
+			n0 := len(res.Failures)
+			ds.m.checkXML(res, ds.doc, fmt.Sprintf("document %d at the end of the history", di))
+			if len(res.Failures) > n0 {
+				return res
+			}
 		}
 	}
 	if sawCustomLandscape {
@@ -590,7 +946,14 @@ func run(c Case) *kit.Result {
 	if reopens > 0 {
 		res.Label("reopen")
 	}
-	res.Nontrivial = okOps >= 3 && (rejected > 0 || reopens > 0 || c.Start != nil)
+	if len(c.Ops) > 25 {
+		res.Label("history:longer-than-25")
+	}
+	foreign := false
+	for _, st := range starts {
+		foreign = foreign || st != nil
+	}
+	res.Nontrivial = okOps >= 3 && (rejected > 0 || reopens > 0 || foreign)
 	res.Shape = strings.Join(shape, "|")
 	return res
 }
@@ -598,12 +961,19 @@ func run(c Case) *kit.Result {
 func TestC12(t *testing.T) {
 	kit.Main(t, kit.Spec[Case]{
 		ID: "C12", Level: "exploration",
-		Rule: "history of 1-25 page-setting calls (SetPageSettings full struct, SetPageSize, SetCustomPageSize, SetPageOrientation, SetPageMargins, SetHeaderFooterDistance, SetGutterWidth, SetDocGrid, ClearDocGrid, nil settings, unrelated edits, save/reopen) with values across the valid ranges, at the bounds +-0.01, outside, near each predefined size in both aspects (+-0.3..2 mm), negative/zero lengths and invalid orientation strings; the history starts from document.New() (6 in 10) or from a harness-written package of another producer opened with OpenFromMemory (4 in 10) whose body-level w:sectPr has w:pgSz without w:orient (portrait- and landscape-shaped), w:orient agreeing with or contradicting the dimensions, w:code, standard/near-standard/bound/square/arbitrary dimensions in twips, w:pgMar complete, with attributes missing, with negative top/bottom or absent, w:docGrid absent, without type/linePitch or with (negative) charSpace, other sectPr children, children and attributes in another order, no sectPr at all, and optionally an earlier section (paragraph-level sectPr); reference model = last value per attribute, else the opened file's value, else the default (orientation of a file the statement is silent about - wide page without w:orient, contradicting w:orient - is adopted from the first read and must then behave like a set value), compared after open and after every call with GetPageSettings (1 twip tolerance; 1 mm for near-standard sizes) and with w:pgSz/w:pgMar of the saved part (the physical page changes only by calls that name size or orientation). non-trivial = >=3 accepted setting calls and (>=1 rejected call or >=1 reopen or a foreign start); distinct = distinct start class + sequence of (op kind, accepted/rejected)",
+		Rule: "history of 1-25 (1 in 25: 26-70) calls on one document or (1 in 4) on two or three documents used alternately: SetPageSettings full struct (also a predefined size next to stray custom dimensions), SetPageSize, SetCustomPageSize, SetPageOrientation, SetPageMargins, SetHeaderFooterDistance, SetGutterWidth, SetDocGrid, ClearDocGrid, nil settings, the settings struct read from one document (unchanged, one margin changed, orientation flipped) given to SetPageSettings of the same or another document, plain reads whose result the caller scribbles on (as it does on every struct it gave to a call), calls that are not page-setting calls but work on the same section properties or the body (AddHeader/AddFooter of the three kinds, page-number footer, SetDifferentFirstPage on/off, page break, table, heading, title), save/reopen through ToBytes+OpenFromMemory or (1 in 4) Save+Open of a file; values across the valid ranges, at the bounds +-0.01, outside, not-a-number/infinite sizes, near each predefined size in both aspects (+-0.3..2 mm and exactly +-1 mm), negative/zero lengths, lengths exactly between two twips, below half a twip and larger than any page, grid line pitch up to 31680, negative and large character space, invalid orientation strings (other case, leading/trailing blank, TAB, newline). Each document is document.New() or (4 in 10 for the first, 3 in 10 for the others) a harness-written package of another producer opened with OpenFromMemory whose body-level w:sectPr has w:pgSz without w:orient (portrait- and landscape-shaped), w:orient agreeing with or contradicting the dimensions, w:code, standard/near-standard/bound/square/arbitrary dimensions in twips, w:pgMar complete, with attributes missing, with negative top/bottom or absent, w:docGrid absent, without type/linePitch or with (negative) charSpace, other sectPr children (also with children of their own: w:cols/w:col, w:pgBorders, w:sectPrChange holding the previous w:sectPr with its own pgSz/pgMar/docGrid), rsid attributes on w:sectPr, header/footer references with their parts, children and attributes in another order, another namespace prefix, indented XML, explicit end tags, no sectPr at all, and one, several or nine earlier sections (paragraph-level sectPr); reference model per document = last value per attribute named by a call on that document, else the opened file's value, else the default (orientation of a file the statement is silent about is adopted from the first read and must then behave like a set value), compared after open and after every call with GetPageSettings of the document called (1 twip tolerance; 1 mm for near-standard sizes) and of every other document, with w:pgSz/w:pgMar/w:docGrid of the saved main part read with archive/zip (after about every fifth call, the last call and for every document at the end), and for rejected calls with the saved main part byte for byte. non-trivial = >=3 accepted setting calls and (>=1 rejected call or >=1 reopen or a foreign start); distinct = distinct start classes + sequence of (document, op kind, accepted/rejected)",
 		Gen:  genCase, Run: run, Findings: findings,
-		MustSee: map[string]float64{"custom+landscape": 0.15, "custom:near-standard": 0.05, "custom:near-standard-rotated": 0.05, "custom:bounds": 0.1, "rejected-op": 0.4, "reopen": 0.3,
-			"start:foreign": 0.3, "start:wide-no-orient": 0.04, "start:orient-contradicts": 0.03, "start:pgMar-partial": 0.03, "start:no-pgMar": 0.02, "start:no-docGrid": 0.05, "start:docGrid-without-type": 0.02, "start:two-sections": 0.01},
+		MustSee: map[string]float64{"custom+landscape": 0.15, "custom:near-standard": 0.05, "custom:near-standard-rotated": 0.05, "custom:bounds": 0.1, "rejected-op": 0.4, "reopen": 0.25,
+			"start:foreign": 0.3, "start:wide-no-orient": 0.04, "start:orient-contradicts": 0.03, "start:pgMar-partial": 0.03, "start:no-pgMar": 0.02, "start:no-docGrid": 0.05, "start:docGrid-without-type": 0.02, "start:two-sections": 0.01,
+			"docs:several": 0.15, "copy": 0.1, "copy:between-documents": 0.015, "other": 0.3, "reopen:file": 0.05, "settings:predefined+stray-custom-dims": 0.15, "grid:negative-charspace": 0.05,
+			"start:other-prefix": 0.02, "start:indented": 0.03, "start:end-tags": 0.03, "start:sectPr-attributes": 0.05, "start:header-footer-references": 0.03, "start:tracked-change-with-old-sectPr": 0.015,
+			"start:children-with-children": 0.01, "history:longer-than-25": 0.02, "named-with-default-values": 0.06},
 		Assumptions: []string{"negative lengths in the full-struct SetPageSettings call are not documented either way: the check accepts rejection (nothing may change) or acceptance (values read back as set); an empty grid type in the full struct is not generated (its meaning is undocumented)",
-			"unknown PageSize names are not generated (not documented as invalid)",
-			"opened documents: only the body-level w:sectPr is 'the settings' (an earlier section's sectPr must not be reported or changed instead); page dimensions of the file stay inside the documented 12.7-558.8 mm; a near-standard physical page of a file may be rewritten as the standard size (the documented 1 mm recognition), otherwise the physical page must stay the file's under calls that do not name size or orientation; w:code and other sectPr children are not judged (losslessness is C03/C04)"},
+			"unknown PageSize names are not generated (not documented as invalid); custom dimensions next to a predefined size are documented as unused and must neither be validated nor used",
+			"a width or height that is not a number is outside the documented 12.7-558.8 mm like any other invalid size; not-a-number or infinite margins are not generated (only negative margins are documented as invalid)",
+			"calls that are not page-setting calls (headers, footers, title page, body content) name no page setting; their own results and errors are not judged here, and a panic in one of them ends the history unjudged",
+			"the settings struct is a value of the caller: changing it after SetPageSettings returned, or changing the result of GetPageSettings, names nothing",
+			"in the saved part w:pgMar is demanded only once margins, distances or gutter were named (by a call or the opened file), and the attributes of w:docGrid only while the grid is named (not after ClearDocGrid: presence of the grid after ClearDocGrid plus another setter is not judged); an absent w:linePitch / w:charSpace counts as 0",
+			"opened documents: only the body-level w:sectPr is 'the settings' (an earlier section's sectPr, or the previous sectPr inside w:sectPrChange, must not be reported or changed instead); page dimensions of the file stay inside the documented 12.7-558.8 mm; a near-standard physical page of a file may be rewritten as the standard size (the documented 1 mm recognition, up to unit rounding at exactly 1 mm), otherwise the physical page must stay the file's under calls that do not name size or orientation; w:code and other sectPr children are not judged (losslessness is C03/C04)"},
 	})
 }
